@@ -229,6 +229,29 @@ CHECKS = {
 
 NOT_YET = {}
 
+# additions of the model-growth round (DESIGN.md 11.6): appended to the level text of each check
+GROWTH = {
+ "C01": "C01_literals_verbatim, C01_value_function_of_object, C01_every_quad_accounted, C01_ill_typed_rejected, C01_non_integer_rejected (RDF/Theory.v).",
+ "C02": "Go-slice/heap model of Path.Append / Path.Prepend (Merklizer/SliceModel.v): C02_path_append_does_not_alias, C02_path_prepend_does_not_alias for every heap and growth policy, pre-fix versions refuted (D35, D36); random op programs on real Path values evaluated by the model (SliceRun.v).",
+ "C03": "RDF/OrdFail.v: C03_integer_literal_rejected, C03_integer_spelling_invariant, C03_add_error_propagates (caller tree whose k-th Add fails), C03_duplicate_path_rejected; evaluated per run.",
+ "C05": "Claim/OptsSlice.v: C05_options_backing_array_untouched (option slices sharing a backing array, on the slice model), append variant refuted; zcase per history.",
+ "C06": "credential view recorded without W3CCredential.Merklize; C06_slot_subset_sound, C06_named_field_bound, two parseSlots variants refuted.",
+ "C07": "credentialStatus object decoded by the model (decode_cs); C07_status_entry_only, C07_status_issuer_never_a_fallback, C07_verify_proof_list (whole proof list).",
+ "C08": "C08_verify_proof_list (first proof of the requested type is bound and verified); near-miss hash faults in quick.",
+ "C09": "byte-level one-JSON-value recogniser and HTTP gate (C09_http_gate), C09_nonexistence_aux_key_differs, registry histories (C09_registry_history).",
+ "C10": "C10_proof_value_hasher, C10_proof_path_hasher_independent (Value/LeafPinned.v).",
+ "C11": "tree keys under the case's hasher table (JsonLD/KeyModel.v): C11_resolver_hasher, C11_key_determined, C11_keys_agree, C11_stored_key_agrees.",
+ "C12": "ParseSerializationAttr and document path walk with explicit nth_or_panic sites: C12_ser_attr_total, C12_doc_path_total, seeded bounds variants refuted; evaluated per run on the hostile strings / degenerate paths.",
+ "C13": "every restore entry point modelled (from_bytes, unmarshal_zero, gob_decode): C13_restore_entry_points_agree, C13_hasher_defaulted, C13_roundtrip_entry_points.",
+ "C14": "state-passing Merklize / ToCoreClaim / VerifyProof (Codec/State.v): C14_tocoreclaim_pure; C14_decode_overwrites, C14_auth_roundtrip, C14_gist_roundtrip.",
+ "C15": "pipeline after the dataset with a caller tree that may fail at step k (JsonLD/Safe.v): C15_success_covers_entries, C15_add_failure_propagated, C15_success_covers_document, C15_unsafe_equals_stripped.",
+ "C16": "SetHasher histories (mkh) and HashValueWithHasher ranges under the hasher's own prime (mkv) evaluated by the model.",
+ "C17": "Claim/AttrAgree.v: C17_attr_parse_agrees (attribute STRING level, on Total's parser), C17_facade_transparent over the component subsets.",
+ "C18": "RFC 8259 parser over the raw bytes (Schema/JsonText.v): C18_malformed_rejected, C18_text_exact, C18_facade_is_validator.",
+ "C19": "Loader/RoutingKeys.v: C19_alternate_routed_by_scheme (one level of alternate link), C19_cache_key_is_url, C19_library_sees_every_line.",
+ "C20": "Conc/LoaderModel.v: LoadDocument's HTTP branch as a state machine for any number of goroutines: C20_no_stale_after_expiry, C20_failure_needs_origin_failure, event logs of the stress runs judged in Coq; C20_writes_under_write_lock on the regenerated skeleton.",
+}
+
 def main():
     props = [json.loads(l) for l in open(os.path.join(ROOT, "properties.jsonl"))]
     checks, na = [], []
@@ -243,7 +266,7 @@ def main():
                 "evidence_file": "/verif/evidence/%s.json" % pid,
                 "replay_cmd_template": "./check %s --replay {path}" % pid,
                 "engine": "coq-proof+correspondence",
-                "level_claimed": {"category": "proof", "text": c["text"], "design_ref": "DESIGN.md section " + c["design"]},
+                "level_claimed": {"category": "proof", "text": c["text"] + (" Added in the model-growth round (DESIGN.md 11.6): " + GROWTH[pid] if pid in GROWTH else ""), "design_ref": "DESIGN.md section " + c["design"]},
                 "level_note": LEVEL_NOTE_COMMON + c["note"],
                 "technique": c["technique"],
             })
